@@ -775,6 +775,15 @@ class Facts:
                     # self.a, self.b = a, b : targets are stored left to right
                     for t, v in zip(st.targets[0].elts, st.value.elts):
                         store(t.attr, v)
+                elif (isinstance(st, ast.Expr) and isinstance(st.value, ast.Call) and isinstance(st.value.func, ast.Attribute) and st.value.func.attr == 'update'
+                      and not st.value.args and st.value.keywords and all(k.arg is not None for k in st.value.keywords)
+                      and ((isinstance(st.value.func.value, ast.Call) and isinstance(st.value.func.value.func, ast.Name) and st.value.func.value.func.id == 'vars'
+                            and len(st.value.func.value.args) == 1 and isinstance(st.value.func.value.args[0], ast.Name) and st.value.func.value.args[0].id == me)
+                           or (isinstance(st.value.func.value, ast.Attribute) and st.value.func.value.attr == '__dict__'
+                               and isinstance(st.value.func.value.value, ast.Name) and st.value.func.value.value.id == me))):
+                    # vars(self).update(a=a, b=b) / self.__dict__.update(a=a, b=b): keyword order is insertion order
+                    for k in st.value.keywords:
+                        store(k.arg, k.value)
                 elif isinstance(st, ast.Assign) and len(st.targets) > 1 and all(is_me(t) for t in st.targets):
                     # self.a = self.b = v : targets are stored left to right
                     for t in st.targets:
@@ -946,6 +955,16 @@ class Facts:
                 if ci.args_attrs is not None:
                     return ci.args_attrs
                 return self._args_by_names(cname, ci.methods['args'])
+            # `args = OtherClass.args` in the class body: the other class's method, applied to this class's attributes
+            for st in ci.node.body:
+                if isinstance(st, ast.Assign) and len(st.targets) == 1 and isinstance(st.targets[0], ast.Name) and st.targets[0].id == 'args':
+                    v = st.value
+                    if isinstance(v, ast.Attribute) and v.attr == 'args' and isinstance(v.value, ast.Name) and v.value.id in self.classes and v.value.id != cname:
+                        got = self.args_attrs(v.value.id)
+                        own = [a for a, _ in self.full_attr_order(cname)]
+                        if got is not None and all(a in own for a in got):
+                            return got
+                    return None
         return None
 
     def class_constant(self, cname, attr):
